@@ -185,8 +185,9 @@ func (ex *Exec) dispatch(fr *Frame, st *State, key string, fn *ssa.Function, fre
 				ex.note("havoc", key)
 			}
 			ex.havocAll(st)
+			ws = nil
 		}
-		ex.havocEscapedLocals(st, args)
+		ex.havocEscapedLocals(st, args, ws)
 		res = ex.freshResult(st, shortName(key), rt)
 	}
 	if fr.con != nil && ex.dry == 0 {
@@ -225,7 +226,25 @@ func (ex *Exec) canInline(fn *ssa.Function, fr *Frame) bool {
 	for _, b := range fn.Blocks {
 		n += len(b.Instrs)
 	}
-	return n <= ex.eng.inlineLimit
+	forced := false
+	if ex.con != nil {
+		for _, pat := range strings.Fields(ex.con.Opts["inline"]) {
+			if calleeMatches(funcKey(fn), pat) {
+				forced = true
+			}
+		}
+	}
+	if fn.Synthetic != "" || fn.Parent() != nil {
+		forced = forced || n <= ex.eng.inlineLimit // wrappers and closures of the function itself
+	}
+	if !forced && n > ex.eng.inlineSmall {
+		return false
+	}
+	if n > ex.eng.inlineLimit || ex.inlinedInstr+n > 3000 {
+		return false
+	}
+	ex.inlinedInstr += n
+	return true
 }
 
 func (ex *Exec) pureCall(st *State, key string, args []Val, rt types.Type) Val {
@@ -268,8 +287,13 @@ func (ex *Exec) typeFactsPure(st *State, v Val) {
 	}
 }
 
-// havocEscapedLocals forgets locals whose address was handed to an unmodelled callee.
-func (ex *Exec) havocEscapedLocals(st *State, args []Val) {
+// havocEscapedLocals forgets locals and interior locations (&x.f, &s[i]) whose address was handed to a callee
+// that is not executed: the callee's type-based write set does not see through such pointers.
+func (ex *Exec) havocEscapedLocals(st *State, args []Val, ws ...*wset) {
+	var w *wset
+	if len(ws) > 0 && ws[0] != nil && !ws[0].top {
+		w = ws[0]
+	}
 	for _, a := range args {
 		loc := a.Loc
 		if loc == nil && len(a.L) == 1 && ex.ifaceVals != nil {
@@ -277,12 +301,42 @@ func (ex *Exec) havocEscapedLocals(st *State, args []Val) {
 				loc = bv.Loc
 			}
 		}
-		if loc != nil && loc.Kind == locCell {
-			nv := FreshVal("c_"+loc.Cell.Name, loc.T)
+		if loc == nil {
+			continue
+		}
+		if loc.Kind == locCell || loc.Prefix != "" || loc.Kind == locElem {
+			if _, isG := loc.Obj.(globalObj); isG {
+				continue
+			}
+			nv := FreshVal("esc", loc.T)
 			ex.typeFacts(st, nv)
+			if w != nil && !isPseudoType(loc.T) {
+				// only the leaves the callee's write set names (through a pointer of the pointee type) are forgotten
+				cur := ex.load(st, loc)
+				ls := Layout(loc.T)
+				any := false
+				for i, l := range ls {
+					if w.heaps[fieldHeapName(loc.T, l.Path)] {
+						any = true
+					} else {
+						nv.L[i] = cur.L[i]
+					}
+				}
+				if !any {
+					continue
+				}
+			}
 			ex.store(st, loc, nv)
 		}
 	}
+}
+
+func isPseudoType(t types.Type) bool {
+	switch t.(type) {
+	case seenType, globalObj:
+		return true
+	}
+	return false
 }
 
 // havocAll forgets every heap.
@@ -428,8 +482,33 @@ func (ex *Exec) useContract(fr *Frame, st *State, con *Contract, key string, fn 
 		ex.assume(st, g)
 	}
 	// frame
-	if !con.HasMod {
+	if con.ModInferred && fn != nil && len(fn.Blocks) > 0 && !ex.eng.writeSet(fn).top {
+		ws := ex.eng.writeSet(fn)
+		ex.bumpWM(st)
+		for _, n := range sortedKeys(ws.heaps) {
+			srt, ok := ex.heapSrt[n]
+			if !ok {
+				continue
+			}
+			st.heap[n] = Fresh(n, srt)
+			ex.heapFacts(n, st.heap[n], st.wm)
+			if ex.wlog != nil {
+				ex.wlog.logHeap(n, nil)
+			}
+		}
+		st.hv = newHV(false, ws.heaps, st.wm, st.hv)
+		if ex.wlog != nil {
+			if ex.wlog.hvSet == nil {
+				ex.wlog.hvSet = map[string]bool{}
+			}
+			for n := range ws.heaps {
+				ex.wlog.hvSet[n] = true
+			}
+		}
+		ex.havocEscapedLocals(st, args, ws)
+	} else if !con.HasMod {
 		ex.havocAll(st)
+		ex.havocEscapedLocals(st, args)
 	} else {
 		ex.bumpWM(st)
 		for _, m := range con.Modifies {
@@ -445,6 +524,9 @@ func (ex *Exec) useContract(fr *Frame, st *State, con *Contract, key string, fn 
 	envPost.wmPre = pre.wm
 	ex.bindLets(envPost, con)
 	for _, c := range con.Ensures {
+		if usesCalls(c.E) {
+			continue // statements about the callee's own calls are not facts about the caller's counters
+		}
 		ex.assume(st, ex.evalBool(envPost, c))
 	}
 	return res
@@ -798,4 +880,19 @@ func (ex *Exec) doAppend(st *State, s, xs Val, rt types.Type) Val {
 		ex.heapSet(st, name, Store(h, id, row))
 	}
 	return Val{T: rt, L: []*Term{id, Int(0), Add(slen, xlen)}}
+}
+
+func usesCalls(e *SExpr) bool {
+	if e == nil {
+		return false
+	}
+	if e.Op == "call" && e.Args[0].Op == "id" && e.Args[0].Name == "calls" {
+		return true
+	}
+	for _, a := range e.Args {
+		if usesCalls(a) {
+			return true
+		}
+	}
+	return false
 }
